@@ -1394,3 +1394,18 @@ def run(idx, rep, tier):
     rep.floor('C05.R15', 'shared rows', len(_kept), 1)
     for o in rep.obligations[_before:]:
         o.rule = 'C05.R15'
+    # C05.R17: shared rule
+    from .c17 import r3 as _c17r3
+    rep.rule('C05.R17', 'authorized_keys restrictions (= C17.R3 match_options '
+             'table): from=, principals= and subject patterns must all '
+             'match; a certificate that lists no principals does not '
+             'satisfy a principals= restriction (and is then not compared '
+             'with the user name either)')
+    _before = len(rep.obligations)
+    _c17r3(k)
+    _kept = [o for o in rep.obligations[_before:] if 'match_options' in o.key]
+    del rep.obligations[_before:]
+    rep.obligations.extend(_kept)
+    rep.floor('C05.R17', 'shared rows', len(_kept), 4)
+    for o in rep.obligations[_before:]:
+        o.rule = 'C05.R17'
